@@ -1,6 +1,6 @@
-(* C13 — On partial failure the count names a prefix that really moved. Theorems only; proofs in Proofs/TransferP.v, Proofs/TransferFailP.v *)
+(* C13 — On partial failure the count names a prefix that really moved. Theorems only; proofs in Proofs/TransferP.v, Proofs/TransferFailP.v, Proofs/TransferWFailP.v *)
 From Coq Require Import List NArith Bool Arith Permutation Strings.Byte.
-From Sftp Require Import Base.GoSem Xfer.Transfer Proofs.TransferP Proofs.TransferE2EP Proofs.TransferFailP.
+From Sftp Require Import Base.GoSem Xfer.Transfer Proofs.TransferP Proofs.TransferE2EP Proofs.TransferFailP Proofs.TransferWFailP.
 Import ListNotations.
 
 (* whatever the set of failing chunks and whatever order the replies arrive in: the reduce keeps an error that was
@@ -98,9 +98,35 @@ Theorem C13_writeSeq_prefix : forall fuel s off n p b boff w s' w' e,
 Proof. exact writeSeq_prefix. Qed.
 Print Assumptions C13_writeSeq_prefix.
 
-(* NOT PROVED (tied by family c13 on every run): the concurrent write paths (writeAtConcurrent, ReadFromWithConcurrency)
-   under failures - every dispatched chunk that does not fail is stored, the lowest failing offset decides count and error,
-   and the prefix below it is intact in the file. *)
+(* concurrent WriteAt (writeAtConcurrent), k chunks dispatched before the cancellation took effect, any set of rejected
+   chunks: the error returned is the one of the lowest rejected offset, the count is that offset minus the start, and exactly
+   those count bytes are in the file, intact and contiguous; nil means everything dispatched was stored *)
+Theorem C13_writeConc_prefix : forall s off b p k s' cnt eopt,
+  1 <= p -> writeConc s off b p k = (s', cnt, eopt) ->
+  match eopt with
+  | Some e => cnt <= length b /\ firstn cnt (skipn off (file s')) = firstn cnt b /\
+              exists c, e = XStatus c /\ wfail s (off + cnt) = Some c
+  | None => cnt = length b /\ (length b <= k * p -> file s' = splice (file s) off b)
+  end.
+Proof. exact writeConc_prefix. Qed.
+Print Assumptions C13_writeConc_prefix.
+
+(* ReadFromWithConcurrency: on error the File offset marks the end of the intact prefix, and the error is the one of the
+   lowest rejected offset; nil with everything dispatched means the whole source was stored *)
+Theorem C13_readFromConc_prefix : forall s p src off k s' n eopt foff,
+  1 <= p -> readFromConc s p src off k = (s', n, eopt, foff) ->
+  match eopt with
+  | Some e => off <= foff /\ foff - off <= length src /\
+              firstn (foff - off) (skipn off (file s')) = firstn (foff - off) src /\
+              exists c, e = XStatus c /\ wfail s foff = Some c
+  | None => foff = off + n /\ (length src <= k * p -> n = length src /\ file s' = splice (file s) off src)
+  end.
+Proof. exact readFromConc_prefix. Qed.
+Print Assumptions C13_readFromConc_prefix.
+
+(* MODELLED: the concurrent write model applies the dispatched chunks in chunk order; the real workers apply them in any
+   order (the chunks are disjoint, and a later chunk written first only zero-fills a gap that the earlier chunk then
+   overwrites) - the model is tied to the code by family c13 on every run (count, error, offset, intact prefix). *)
 Example C13_nonvacuous :
   let s := mkSrv (pattern 0 10) 100 (fun o => if o =? 5 then Some 4%N else None) (fun _ => None) in
   let o := mkOpts 3 2 true false false in
